@@ -120,6 +120,10 @@ func runEmit(prop string) int {
 		r.EmitFrameRef(prop+"_frame.json", spec.FrameScope)
 		fmt.Println(prop + ": wrote frame reference")
 	}
+	if len(spec.Scope.Include) > 0 && prop != "C11" {
+		r.EmitLoopRef(prop+"_loops.json", loopScopes(spec))
+		fmt.Println(prop + ": wrote loop-bound reference")
+	}
 	if len(spec.Scope.Include) > 0 {
 		if err := r.EmitGuardRef(prop+"_guards.json", spec.Scope); err != nil {
 			fmt.Fprintln(os.Stderr, err)
